@@ -2,7 +2,13 @@
 // operation is one scheduling point followed by its (trivially atomic) effect.
 package atomic
 
-import "verif/mc"
+import (
+	"reflect"
+
+	"verif/mc"
+)
+
+func fmtType(v any) reflect.Type { return reflect.TypeOf(v) }
 
 func AddInt32(addr *int32, delta int32) int32 {
 	mc.Point("atomic.AddInt32")
@@ -112,3 +118,177 @@ type Bool struct{ v bool }
 
 func (x *Bool) Load() bool   { mc.Point("atomic.Bool.Load"); return x.v }
 func (x *Bool) Store(v bool) { mc.Point("atomic.Bool.Store"); x.v = v; mc.After("atomic") }
+
+func AddUint64(addr *uint64, delta uint64) uint64 {
+	mc.Point("atomic.AddUint64")
+	*addr += delta
+	v := *addr
+	mc.After("atomic")
+	return v
+}
+
+func LoadUint64(addr *uint64) uint64 { mc.Point("atomic.LoadUint64"); return *addr }
+func StoreUint64(addr *uint64, v uint64) {
+	mc.Point("atomic.StoreUint64")
+	*addr = v
+	mc.After("atomic")
+}
+
+func CompareAndSwapInt64(addr *int64, old, new int64) bool {
+	mc.Point("atomic.CompareAndSwapInt64")
+	if *addr == old {
+		*addr = new
+		mc.After("atomic")
+		return true
+	}
+	return false
+}
+
+func CompareAndSwapUint64(addr *uint64, old, new uint64) bool {
+	mc.Point("atomic.CompareAndSwapUint64")
+	if *addr == old {
+		*addr = new
+		mc.After("atomic")
+		return true
+	}
+	return false
+}
+
+func SwapInt32(addr *int32, v int32) int32 {
+	mc.Point("atomic.SwapInt32")
+	old := *addr
+	*addr = v
+	mc.After("atomic")
+	return old
+}
+
+func SwapUint32(addr *uint32, v uint32) uint32 {
+	mc.Point("atomic.SwapUint32")
+	old := *addr
+	*addr = v
+	mc.After("atomic")
+	return old
+}
+
+func SwapInt64(addr *int64, v int64) int64 {
+	mc.Point("atomic.SwapInt64")
+	old := *addr
+	*addr = v
+	mc.After("atomic")
+	return old
+}
+
+type Uint32 struct{ v uint32 }
+
+func (x *Uint32) Load() uint32   { mc.Point("atomic.Uint32.Load"); return x.v }
+func (x *Uint32) Store(v uint32) { mc.Point("atomic.Uint32.Store"); x.v = v; mc.After("atomic") }
+func (x *Uint32) Add(d uint32) uint32 {
+	mc.Point("atomic.Uint32.Add")
+	x.v += d
+	v := x.v
+	mc.After("atomic")
+	return v
+}
+func (x *Uint32) CompareAndSwap(old, new uint32) bool {
+	mc.Point("atomic.Uint32.CompareAndSwap")
+	if x.v == old {
+		x.v = new
+		mc.After("atomic")
+		return true
+	}
+	return false
+}
+
+type Uint64 struct{ v uint64 }
+
+func (x *Uint64) Load() uint64   { mc.Point("atomic.Uint64.Load"); return x.v }
+func (x *Uint64) Store(v uint64) { mc.Point("atomic.Uint64.Store"); x.v = v; mc.After("atomic") }
+func (x *Uint64) Add(d uint64) uint64 {
+	mc.Point("atomic.Uint64.Add")
+	x.v += d
+	v := x.v
+	mc.After("atomic")
+	return v
+}
+
+func (x *Int32) CompareAndSwap(old, new int32) bool {
+	mc.Point("atomic.Int32.CompareAndSwap")
+	if x.v == old {
+		x.v = new
+		mc.After("atomic")
+		return true
+	}
+	return false
+}
+
+func (x *Int64) CompareAndSwap(old, new int64) bool {
+	mc.Point("atomic.Int64.CompareAndSwap")
+	if x.v == old {
+		x.v = new
+		mc.After("atomic")
+		return true
+	}
+	return false
+}
+
+func (x *Bool) CompareAndSwap(old, new bool) bool {
+	mc.Point("atomic.Bool.CompareAndSwap")
+	if x.v == old {
+		x.v = new
+		mc.After("atomic")
+		return true
+	}
+	return false
+}
+
+func (x *Bool) Swap(new bool) bool {
+	mc.Point("atomic.Bool.Swap")
+	old := x.v
+	x.v = new
+	mc.After("atomic")
+	return old
+}
+
+// Value is the model of atomic.Value, including its panics (nil, inconsistent type).
+type Value struct {
+	v   any
+	set bool
+}
+
+func (x *Value) Load() any { mc.Point("atomic.Value.Load"); return x.v }
+
+func (x *Value) check(v any) {
+	if v == nil {
+		panic("sync/atomic: store of nil value into Value")
+	}
+	if x.set && fmtType(x.v) != fmtType(v) {
+		panic("sync/atomic: store of inconsistently typed value into Value")
+	}
+}
+
+func (x *Value) Store(v any) {
+	mc.Point("atomic.Value.Store")
+	x.check(v)
+	x.v, x.set = v, true
+	mc.After("atomic")
+}
+
+func (x *Value) Swap(v any) any {
+	mc.Point("atomic.Value.Swap")
+	x.check(v)
+	old := x.v
+	x.v, x.set = v, true
+	mc.After("atomic")
+	return old
+}
+
+func (x *Value) CompareAndSwap(old, new any) bool {
+	mc.Point("atomic.Value.CompareAndSwap")
+	x.check(new)
+	if x.v != old {
+		return false
+	}
+	x.v, x.set = new, true
+	mc.After("atomic")
+	return true
+}
